@@ -143,6 +143,10 @@ def run_case(rep, drv, rng, th):
 		bad.append('total_cost is not cost_matrix[1][x0]')
 	if mo['hitsTop']:
 		rep.count('fh:model-optimum-at-top-of-grid')
+	# hypothesis of dp_dominates_every_policy (Props/C12Opt.lean): non-negative probabilities and discount factors
+	rep.count('dp_dominates-hypothesis-periodsOK-' + ('true' if mo.get('periodsOK', True) else 'FALSE'))
+	if not mo.get('periodsOK', True):
+		bad.append('a demand probability or discount factor is negative: dp_dominates_every_policy does not cover this instance')
 	# evaluation mode reproduces the cost matrix
 	try:
 		with warnings.catch_warnings():
